@@ -476,7 +476,7 @@ def run(ctx):
         if node is not None:
             ctx.function_under_contract(MOD + ":" + q, mod.segment(node))
     rng = random.Random(ctx.seed)
-    rounds = 700 if ctx.tier == "quick" else 10000
+    rounds = 1500 if ctx.tier == "quick" else 12000
     t = Tally(ctx, "B-02 dump -> re-parse in six input forms x armor x comments; single and multi-paragraph",
               "generated paragraphs of 1-4 fields over 8 valid names (incl. '#', '.', '_', digits in the name) with 10 kinds of "
               "first line and 10 kinds of continuation line; each dumped paragraph / document is re-read as str, bytes, list of "
